@@ -65,10 +65,13 @@ pub(super) fn block_string_value(raw: &str) -> String {
         .skip(first_contentful_line)
         // Remove the common indent, but not on the first line
         .map(|(i, line)| {
-            if i != 0 && line.len() >= common_indent {
+            if i == 0 {
+                line
+            } else if line.len() >= common_indent {
                 &line[common_indent..]
             } else {
-                line
+                // A line shorter than the common indent is all whitespace
+                ""
             }
         })
         // Put a newline between each line
